@@ -37,7 +37,7 @@ Inductive cpc :=
 | CEnterWait            (* old code only: saw full, about to take the mutex and wait *)
 | CGet                  (* z = q_in.get() *)
 | CProc (m : msg)       (* dispatch on z *)
-| CStop1 | CStop2       (* q_in.put(None); q_out.put(None) *)
+| CStop1                (* q_in.put(None); the collector does not put the marker into q_out (repair N1) *)
 | CMore                 (* not q_in.empty() *)
 | CMoreQ                (* buffer.qsize() < batchsize *)
 | CFlag                 (* _batch_get_called.is_set() *)
@@ -151,11 +151,9 @@ Definition step_c (g : cfg) (s : state) : option (state * event) :=
       Some ({| env_next := env_next s; qin := qin s; buf := buf s; qout := qout s ++ [OErr u]; cp := CMore; bp := bp s;
                flag := flag s; woken := woken s; calls := calls s |}, mkEv T_C OP_BQOUT_PUT (zn u * 2 + 1))
   | CStop1 =>
-      Some ({| env_next := env_next s; qin := qin s ++ [Stop]; buf := buf s; qout := qout s; cp := CStop2; bp := bp s;
+      (* the collector does not forward the marker to q_out: the consumer does, after the buffered items (repair N1) *)
+      Some ({| env_next := env_next s; qin := qin s ++ [Stop]; buf := buf s; qout := qout s; cp := CDone; bp := bp s;
                flag := flag s; woken := woken s; calls := calls s |}, mkEv T_C OP_BQIN_PUT V_END)
-  | CStop2 =>
-      Some ({| env_next := env_next s; qin := qin s; buf := buf s; qout := qout s ++ [OStop]; cp := CDone; bp := bp s;
-               flag := flag s; woken := woken s; calls := calls s |}, mkEv T_C OP_BQOUT_PUT V_END)
   | CMore =>
       match qin s with
       | [] => Some (with_cp s CFlag, mkEv T_C OP_BQIN_EMPTY 1)
